@@ -317,12 +317,17 @@ Proof. unfold least_above. intros H. apply find_some in H. destruct H as [Hin Hb
 (* ------------------------------------------------------------------------------------------- *)
 (* the closed system with one honest peer                                                       *)
 (* ------------------------------------------------------------------------------------------- *)
+(* the checkpoint list the manager actually follows: none when checkpoints are disabled (SyncManager.New never sets
+   nextCheckpoint then, and only handleHeadersMsg ever advances it) *)
+Definition eff_cps (cfg : dcfg) : list cp := if c_disable cfg then [] else c_cps cfg.
+Lemma eff_cps_some cfg x c : least_above (eff_cps cfg) x = Some c -> eff_cps cfg = c_cps cfg.
+Proof. unfold eff_cps. destruct (c_disable cfg); [discriminate| reflexivity]. Qed.
+
 Section Catchup.
-Variables (cfg : dcfg) (gid : N) (C : list src) (p : N) (cap : nat).
-Hypothesis Hdis : c_disable cfg = false.
+Variables (cfg : dcfg) (gid : N) (C : list src) (p : N) (cap : nat) (res : list src).
 Hypothesis HC : good_chain (c_forb cfg) gid C.
-Hypothesis Hcps : cps_ok gid C (c_cps cfg).
-Hypothesis Hsorted : sorted (c_cps cfg).
+Hypothesis Hcps : cps_ok gid C (eff_cps cfg).
+Hypothesis Hsorted : sorted (eff_cps cfg).
 Hypothesis Hcap : (1 <= cap)%nat.
 Notation ci := (cids gid C).
 Notation dflt := (ex_sub 0 0 0).
@@ -332,12 +337,15 @@ Definition tipid (k : nat) : N := nth k ci 0%N.
 
 Definition eng_ok (k : nat) (st : dstate) : Prop :=
   d_hfm st = true /\ d_sync st = Some p /\ d_states st = [(p, true)] /\
-  (exists o, d_objs st = [(p, o)] /\ po_conn o = true /\ po_pb o = Some (tipid k)) /\
-  d_next st = least_above (c_cps cfg) (Z.of_nat k) /\ Good gid C k (d_store st).
+  (exists o, d_objs st = [(p, o)] /\ po_conn o = true /\ po_pb o = Some (tipid k) /\
+             (forall s0, po_ps o = Some s0 -> s0 = 0%N \/ In s0 ci)) /\         (* the previous stop hash: zero or a hash of C *)
+  d_next st = least_above (eff_cps cfg) (Z.of_nat k) /\ Good gid C k (d_store st).
 
 Definition node_ok (k : nat) (nx : option cp) (n : node) : Prop :=
-  n_chain n = C /\ n_cap n = cap /\ n_open n = true /\ n_stalled n = false /\
-  n_out n = [MHeaders (firstn cap (upto_stop (stop_of nx) (skipn k C)))].
+  n_chain n = C /\ n_reserve n = res /\ n_cap n = cap /\ n_open n = true /\ n_stalled n = false /\
+  (* the reply in flight: the next m headers of C, not reaching beyond the expected checkpoint *)
+  exists m, n_out n = [MHeaders (firstn m (skipn k C))] /\ (k + m <= length C)%nat /\ ((k < length C)%nat -> (1 <= m)%nat) /\
+            nx_ok gid C nx k m.
 
 Definition sys_ok (k : nat) (y : sys) : Prop :=
   y_cfg y = cfg /\ y_gid y = gid /\ eng_ok k (y_eng y) /\ y_done y = [] /\
@@ -365,7 +373,7 @@ Proof.
 Qed.
 
 (* the next checkpoint is on C, strictly above k, and its hash sits at its height *)
-Lemma next_on_chain k H cid : least_above (c_cps cfg) (Z.of_nat k) = Some (H, cid) ->
+Lemma next_on_chain k H cid : least_above (eff_cps cfg) (Z.of_nat k) = Some (H, cid) ->
   exists Hn : nat, H = Z.of_nat Hn /\ (k < Hn)%nat /\ nth_error ci Hn = Some cid /\ (Hn <= length C)%nat.
 Proof.
   intros Hl. destruct (least_above_gt _ _ _ Hl) as [Hgt Hin]. destruct (Hcps _ Hin) as (i & Ei & Hn). cbn [fst snd] in *.
@@ -373,23 +381,41 @@ Proof.
   assert (i < length ci)%nat by (apply nth_error_Some; congruence). rewrite cids_length in H0. lia.
 Qed.
 
+(* the reply of the node to a request whose locator starts with the k-th hash and whose stop is the cursor's hash *)
+Lemma reply_batch k rest : (k <= length C)%nat ->
+  exists m, reply gid C (tipid k :: rest) (stop_of (least_above (eff_cps cfg) (Z.of_nat k))) cap = firstn m (skipn k C) /\
+            (k + m <= length C)%nat /\ ((k < length C)%nat -> (1 <= m)%nat) /\
+            nx_ok gid C (least_above (eff_cps cfg) (Z.of_nat k)) k m.
+Proof.
+  intros Hk.
+  destruct (reply_shape (c_forb cfg) gid C HC k rest (stop_of (least_above (eff_cps cfg) (Z.of_nat k))) cap Hk Hcap) as (m & Em & Hkm & Hm1 & Hmstop).
+  exists m. split; [exact Em|]. split; [exact Hkm|]. split; [exact Hm1|].
+  unfold nx_ok. destruct (least_above (eff_cps cfg) (Z.of_nat k)) as [[H cid]|] eqn:El; [|exact I].
+  destruct (next_on_chain k H cid El) as (Hn & EH & Hlt2 & Hnth & _).
+  exists Hn. split; [exact EH|]. split; [|exact Hnth]. apply (Hmstop Hn Hlt2). exact Hnth.
+Qed.
+
+(* the state between syncs: everything delivered, nothing in flight *)
+Definition idle_ok (y : sys) : Prop :=
+  y_cfg y = cfg /\ y_gid y = gid /\ eng_ok (length C) (y_eng y) /\ y_done y = [] /\
+  exists n, y_nodes y = [(p, n)] /\ n_chain n = C /\ n_reserve n = res /\ n_cap n = cap /\ n_open n = true /\
+            n_stalled n = false /\ n_out n = [].
+
 (* one delivery *)
 Lemma round k y : (k <= length C)%nat -> sys_ok k y ->
   exists y' tr, deliver y p = (y', tr) /\ Forall entry_ok tr /\
     (((k < length C)%nat /\ exists m, (1 <= m)%nat /\ (k + m <= length C)%nat /\ sys_ok (k + m) y') \/
-     (k = length C /\ quiescent y' = true /\ y_eng y' = y_eng y)).
+     (k = length C /\ quiescent y' = true /\ idle_ok y')).
 Proof.
   intros Hk (Ecfg & Egid & Heng & Edone & n & Enodes & Hnode).
-  destruct Heng as (Hhfm & Hsync & Hstates & (o & Eobjs & Hconn & Hpb) & Hnext & HG).
-  destruct Hnode as (Hch & Hcp & Hop & Hns & Hout).
+  pose proof Heng as Heng0.
+  destruct Heng as (Hhfm & Hsync & Hstates & (o & Eobjs & Hconn & Hpb & Hps) & Hnext & HG).
+  destruct Hnode as (Hch & Hrs & Hcp & Hop & Hns & m & Hout & Hkm & Hm1 & Hnxok).
   set (st := y_eng y) in *.
-  pose (nx := d_next st). assert (Enxd: d_next st = nx) by reflexivity. clearbody nx. rewrite Enxd in Hnext, Hout.
-  (* the batch *)
-  pose proof (reply_shape (c_forb cfg) gid C HC k [] (stop_of nx) cap Hk Hcap) as (m & Em & Hkm & Hm1 & Hmstop).
-  fold (tipid k) in Em. rewrite (reply_head k [] (stop_of nx) Hk) in Em.
+  pose (nx := d_next st). assert (Enxd: d_next st = nx) by reflexivity. clearbody nx. rewrite Enxd in Hnext, Hnxok.
   set (n1 := n_with n (n_chain n) (n_reserve n) (n_open n) (n_used n) (n_stalled n) []).
   assert (Edel: deliver y p = eng_event (y_with y st [(p, n1)] (y_done y) (y_hints y)) (EHeaders p (firstn m (skipn k C)))).
-  { unfold deliver. rewrite Enodes. cbn [aget]. rewrite N.eqb_refl, Hop, Hout. cbn [negb]. rewrite Em.
+  { unfold deliver. rewrite Enodes. cbn [aget]. rewrite N.eqb_refl, Hop, Hout. cbn [negb].
     unfold upd_node. cbn [map fst snd]. rewrite N.eqb_refl. reflexivity. }
   rewrite Edel. unfold eng_event. cbn [y_cfg y_eng y_with y_hints y_gid y_nodes y_done]. rewrite Ecfg, Egid. cbn [d_step].
   destruct (Nat.eq_dec k (length C)) as [Eend|Hlt'].
@@ -398,13 +424,13 @@ Proof.
     assert (Eon: on_headers cfg st p [] = (st, [])).
     { unfold on_headers. rewrite Hstates. cbn [aget]. rewrite N.eqb_refl, Hhfm. reflexivity. }
     rewrite Eon. cbn [apply_effs]. eexists _, _. split; [reflexivity|]. split; [constructor; [reflexivity| constructor]|].
-    right. split; [exact Eend|]. split; [|reflexivity].
-    unfold quiescent, next_ready. cbn [y_nodes y_with find snd fst n1 n_with n_open n_out y_done]. rewrite Hop, Edone. reflexivity.
+    right. split; [exact Eend|]. split.
+    + unfold quiescent, next_ready. cbn [y_nodes y_with find snd fst n1 n_with n_open n_out y_done]. rewrite Hop, Edone. reflexivity.
+    + unfold idle_ok. cbn [y_cfg y_gid y_eng y_done y_nodes y_with]. split; [exact Ecfg|]. split; [exact Egid|].
+      split; [rewrite <- Eend; exact Heng0|]. split; [exact Edone|].
+      exists n1. split; [reflexivity|]. unfold n1, n_with. cbn [n_chain n_reserve n_cap n_open n_stalled n_out].
+      split; [exact Hch|]. split; [exact Hrs|]. split; [exact Hcp|]. split; [exact Hop|]. split; [exact Hns|]. reflexivity.
   - assert (Hlt: (k < length C)%nat) by lia. specialize (Hm1 Hlt).
-    assert (Hnxok: nx_ok gid C nx k m).
-    { unfold nx_ok. destruct nx as [[H cid]|]; [|exact I]. symmetry in Hnext.
-      destruct (next_on_chain k H cid Hnext) as (Hn & EH & Hlt2 & Hnth & _).
-      exists Hn. split; [exact EH|]. split; [|exact Hnth]. apply (Hmstop Hn Hlt2). exact Hnth. }
     destruct (hloop_linear (c_forb cfg) gid C HC nx m k (d_store st) false None Hkm HG Hnxok) as (s' & HG' & Eloop).
     destruct m as [|m']; [lia|]. set (m := S m') in *. cbn [orb] in Eloop.
     assert (Hne: firstn m (skipn k C) <> []). { rewrite (skipn_nth_cons C k dflt Hlt). discriminate. }
@@ -435,9 +461,10 @@ Proof.
                  | Some (_, c0) => send_gh (with_store st s') p (locator s') c0
                  end
                end) = (st2, [GetHeaders p loc (stop_of (d_next st2))]) /\
-              hd_error loc = Some (tipid (k + m)) /\ d_next st2 = least_above (c_cps cfg) (Z.of_nat (k + m)) /\
+              hd_error loc = Some (tipid (k + m)) /\ d_next st2 = least_above (eff_cps cfg) (Z.of_nat (k + m)) /\
               d_store st2 = s' /\ d_hfm st2 = true /\ d_sync st2 = Some p /\ d_states st2 = [(p, true)] /\
-              (exists o2, d_objs st2 = [(p, o2)] /\ po_conn o2 = true /\ po_pb o2 = Some (tipid (k + m)))).
+              (exists o2, d_objs st2 = [(p, o2)] /\ po_conn o2 = true /\ po_pb o2 = Some (tipid (k + m)) /\
+                          (forall s0, po_ps o2 = Some s0 -> s0 = 0%N \/ In s0 ci))).
     { rewrite Enxd. destruct nx as [[H cid]|].
       - symmetry in Hnext.
         destruct (next_on_chain k H cid Hnext) as (Hn & EH & Hlt2 & Hnth & HnC).
@@ -447,21 +474,29 @@ Proof.
         + (* the batch ended on the checkpoint *)
           assert (Hn = (k + m)%nat) by lia. subst Hn.
           assert (Ecid: cid = tipid (k + m)). { unfold tipid. symmetry. apply nth_error_nth. exact Hnth. }
+          rewrite <- (eff_cps_some cfg _ _ Hnext).
           rewrite (find_next_d_spec _ H Hsorted). rewrite <- E.
-          destruct (least_above (c_cps cfg) (Z.of_nat (k + m))) as [[H' c']|] eqn:El.
+          destruct (least_above (eff_cps cfg) (Z.of_nat (k + m))) as [[H' c']|] eqn:El.
           * rewrite (Hsend _ [cid] c'); [|exact Eobjs| cbn; rewrite Ecid; reflexivity].
-            match goal with |- exists st2 loc, (?a, [GetHeaders ?q ?l ?s]) = _ /\ _ => exists a, l end. split; [reflexivity|]. cbn. rewrite Ecid. repeat split; auto. eexists. repeat split; reflexivity.
+            match goal with |- exists st2 loc, (?a, [GetHeaders ?q ?l ?s]) = _ /\ _ => exists a, l end. split; [reflexivity|]. cbn. rewrite Ecid. repeat split; auto.
+            eexists. split; [reflexivity|]. split; [reflexivity|]. split; [reflexivity|].
+            intros s0 Hs0. cbn in Hs0. inversion Hs0; subst s0. right.
+            destruct (next_on_chain (k + m) H' c' El) as (Hn2 & _ & _ & Hnth2 & _). exact (nth_error_In ci Hn2 Hnth2).
           * rewrite (Hsend _ (locator s') 0%N); [|exact Eobjs| rewrite Eloc; reflexivity].
-            match goal with |- exists st2 loc, (?a, [GetHeaders ?q ?l ?s]) = _ /\ _ => exists a, l end. split; [reflexivity|]. cbn. rewrite Eloc. repeat split; auto. eexists. repeat split; reflexivity.
+            match goal with |- exists st2 loc, (?a, [GetHeaders ?q ?l ?s]) = _ /\ _ => exists a, l end. split; [reflexivity|]. cbn. rewrite Eloc. repeat split; auto.
+            eexists. split; [reflexivity|]. split; [reflexivity|]. split; [reflexivity|].
+            intros s0 Hs0. cbn in Hs0. inversion Hs0; subst s0. left. reflexivity.
         + (* still below the checkpoint: the cursor stays *)
           rewrite (Hsend _ (locator s') cid); [|exact Eobjs| rewrite Eloc; reflexivity].
           match goal with |- exists st2 loc, (?a, [GetHeaders ?q ?l ?s]) = _ /\ _ => exists a, l end. split; [cbn; rewrite Enxd; reflexivity|]. cbn. rewrite Enxd, Eloc. repeat split; auto.
           * rewrite <- Hnext. symmetry. apply least_above_mono; [exact Hsorted| lia|]. rewrite Hnext. cbn. lia.
-          * eexists. repeat split; reflexivity.
+          * eexists. split; [reflexivity|]. split; [reflexivity|]. split; [reflexivity|].
+            intros s0 Hs0. cbn in Hs0. inversion Hs0; subst s0. right. exact (nth_error_In ci Hn Hnth).
       - cbn [reached]. rewrite (Hsend _ (locator s') 0%N); [|exact Eobjs| rewrite Eloc; reflexivity].
         match goal with |- exists st2 loc, (?a, [GetHeaders ?q ?l ?s]) = _ /\ _ => exists a, l end. split; [cbn; rewrite Enxd; reflexivity|]. cbn. rewrite Enxd, Eloc. repeat split; auto.
         + rewrite Hnext. symmetry. apply least_above_mono; [exact Hsorted| lia|]. rewrite <- Hnext. exact I.
-        + eexists. repeat split; reflexivity. }
+        + eexists. split; [reflexivity|]. split; [reflexivity|]. split; [reflexivity|].
+          intros s0 Hs0. cbn in Hs0. inversion Hs0; subst s0. left. reflexivity. }
     destruct Hres as (st2 & loc & Eres & Hhd & Hnx2 & Hst2 & Hh2 & Hs2 & Hss2 & Ho2).
     rewrite Eres. cbn [apply_effs]. unfold upd_node. cbn [map fst snd]. rewrite N.eqb_refl. cbn [apply_effs].
     eexists _, _. split; [reflexivity|]. split.
@@ -472,14 +507,16 @@ Proof.
       * unfold eng_ok. rewrite Hst2. repeat split; auto.
       * eexists. split; [reflexivity|].
         unfold node_request, n1, n_with. cbn [n_open n_stalled n_chain n_reserve n_used n_out n_cap]. rewrite Hop, Hns. cbn [negb andb app].
-        unfold node_ok. cbn [n_chain n_cap n_open n_stalled n_out]. repeat split; auto.
-        rewrite Hch, Hcp. destruct loc as [|l0 lr]; [discriminate|]. cbn in Hhd. inversion Hhd; subst l0.
-        rewrite (reply_head (k + m) lr _ Hkm). reflexivity.
+        unfold node_ok. cbn [n_chain n_reserve n_cap n_open n_stalled n_out].
+        split; [exact Hch|]. split; [exact Hrs|]. split; [exact Hcp|]. split; [reflexivity|]. split; [reflexivity|].
+        rewrite Hch, Hcp. destruct loc as [|l0 lr]; [discriminate|]. assert (El0: l0 = tipid (k + m)) by (cbn [hd_error] in Hhd; congruence). subst l0.
+        rewrite Hnx2. destruct (reply_batch (k + m) lr Hkm) as (m2 & Em2 & Hkm2 & Hm12 & Hnx2ok).
+        exists m2. rewrite Em2. auto.
 Qed.
 
 Lemma sys_ok_ready k y : sys_ok k y -> next_ready y = Some (false, p).
 Proof.
-  intros (_ & _ & _ & _ & n & En & (_ & _ & Hop & _ & Hout)). unfold next_ready. rewrite En. cbn [find snd]. rewrite Hop, Hout. reflexivity.
+  intros (_ & _ & _ & _ & n & En & (_ & _ & _ & Hop & _ & m & Hout & _)). unfold next_ready. rewrite En. cbn [find snd]. rewrite Hop, Hout. reflexivity.
 Qed.
 
 Lemma quiescent_run fuel y : quiescent y = true -> run_q fuel y = (y, []).
@@ -488,24 +525,15 @@ Proof. unfold quiescent. intros H. destruct fuel; [reflexivity|]. cbn [run_q]. d
 (* fuel_suffices: |C| - k + 1 deliveries are enough *)
 Lemma run_linear : forall fuel k y, (k <= length C)%nat -> sys_ok k y -> (length C - k + 1 <= fuel)%nat ->
   exists y' tr, run_q fuel y = (y', tr) /\ Forall entry_ok tr /\ quiescent y' = true /\
-                Good gid C (length C) (d_store (y_eng y')) /\ d_sync (y_eng y') = Some p /\ y_done y' = [].
+                Good gid C (length C) (d_store (y_eng y')) /\ idle_ok y'.
 Proof.
   induction fuel as [|fuel IH]; intros k y Hk Hs Hf; [lia|].
   cbn [run_q]. rewrite (sys_ok_ready k y Hs).
-  destruct (round k y Hk Hs) as (y1 & t1 & Ed & Ht1 & [(Hlt & m & Hm & Hkm & Hs1)|(Eend & Hq & Eeng)]); rewrite Ed.
-  - destruct (IH (k + m)%nat y1 Hkm Hs1 ltac:(lia)) as (y2 & t2 & Er & Ht2 & Hq2 & HG2 & Hsy2 & Hd2).
+  destruct (round k y Hk Hs) as (y1 & t1 & Ed & Ht1 & [(Hlt & m & Hm & Hkm & Hs1)|(Eend & Hq & Hidle)]); rewrite Ed.
+  - destruct (IH (k + m)%nat y1 Hkm Hs1 ltac:(lia)) as (y2 & t2 & Er & Ht2 & Hq2 & HG2 & Hi2).
     rewrite Er. exists y2, (t1 ++ t2). split; [reflexivity|]. split; [apply Forall_app; split; assumption|]. auto.
   - rewrite (quiescent_run fuel y1 Hq). exists y1, (t1 ++ []). split; [reflexivity|]. split; [rewrite app_nil_r; exact Ht1|].
-    split; [exact Hq|]. rewrite Eeng. destruct Hs as (_ & _ & (_ & Hsy & _ & _ & _ & HG) & Hdn & _). subst k.
-    split; [exact HG|]. split; [exact Hsy|].
-    (* y_done is untouched by an engine step without disconnects *)
-    clear IH Hq. unfold deliver in Ed. destruct (aget p (y_nodes y)) as [n|]; [|inversion Ed; subst; exact Hdn].
-    destruct (negb (n_open n)); [inversion Ed; subst; exact Hdn|]. destruct (n_out n) as [|m0 rest]; [inversion Ed; subst; exact Hdn|].
-    unfold eng_event in Ed. cbn [y_cfg y_eng y_with y_hints y_gid y_nodes y_done] in Ed.
-    destruct (d_step _ _ _ _) as [eng' es] eqn:Es. destruct (apply_effs _ _ _ es) as [nodes' done'] eqn:Ea.
-    inversion Ed; subst y1 t1. cbn [y_done y_with]. inversion Ht1 as [|x l Hx _]; subst.
-    unfold entry_ok in Hx. destruct es as [|e0 es0]; [cbn in Ea; inversion Ea; subst; exact Hdn|].
-    destruct e0; try contradiction. destruct es0; [|contradiction]. cbn in Ea. inversion Ea; subst. exact Hdn.
+    split; [exact Hq|]. split; [|exact Hidle]. destruct Hidle as (_ & _ & (_ & _ & _ & _ & _ & HG) & _). exact HG.
 Qed.
 
 Local Arguments locator : simpl never.
@@ -514,57 +542,70 @@ Local Arguments tip_height : simpl never.
 Local Arguments reply : simpl never.
 Local Arguments least_above : simpl never.
 
-Definition node0 (res : list src) : node :=
+Definition node0 : node :=
   {| n_chain := C; n_reserve := res; n_cap := cap; n_open := false; n_used := false; n_stalled := false; n_out := [] |}.
 
 Lemma last_of_single st o x : last_of (with_states (with_objs st [(p, o)]) x) p = po_last o.
 Proof. unfold last_of. cbn [d_objs with_states with_objs aget]. rewrite N.eqb_refl. reflexivity. Qed.
 
+(* SyncManager.New on a Good store: nextCheckpoint follows the effective list; headersFirstMode is on exactly when there is
+   no next checkpoint (also with checkpoints disabled, since e6f7150) *)
+Lemma d_init_eval k s : (k <= length C)%nat -> Good gid C k s ->
+  d_init cfg s = {| d_hfm := match least_above (eff_cps cfg) (Z.of_nat k) with None => true | Some _ => false end;
+                    d_next := least_above (eff_cps cfg) (Z.of_nat k); d_sync := None; d_objs := []; d_states := []; d_store := s |}.
+Proof.
+  intros Hk HG.
+  destruct (good_tip gid C k s Hk HG) as (tip & t & _ & _ & _ & HtB & _ & Hth & _).
+  assert (Eth: tip_height s = Z.of_nat k). { unfold tip_height. rewrite HtB. exact Hth. }
+  unfold d_init. rewrite Eth. unfold eff_cps in *. destruct (c_disable cfg).
+  - reflexivity.
+  - rewrite (find_next_d_spec _ _ Hsorted). reflexivity.
+Qed.
+
 (* handleNewPeerMsg -> startSync on a fresh manager: the first request *)
 Lemma new_peer_eval k s hint : (k <= length C)%nat -> Good gid C k s ->
   on_new_peer cfg hint (d_init cfg s) p true (Z.of_nat (length C)) =
-  (let nx := least_above (c_cps cfg) (Z.of_nat k) in
+  (let nx := least_above (eff_cps cfg) (Z.of_nat k) in
    ({| d_hfm := true; d_next := nx; d_sync := Some p;
        d_objs := [(p, {| po_conn := true; po_last := Z.of_nat (length C); po_start := Z.of_nat (length C);
                          po_pb := hd_error (locator s); po_ps := Some (stop_of nx) |})];
        d_states := [(p, true)]; d_store := s |},
     [GetHeaders p (locator s) (stop_of nx)])).
 Proof.
-  intros Hk HG.
+  intros Hk HG. rewrite (d_init_eval k s Hk HG).
   destruct (good_tip gid C k s Hk HG) as (tip & t & HI2 & Etip & Ht & HtB & Htid & Hth & HtL & Hto & Hc & Hids).
   assert (Eth: tip_height s = Z.of_nat k). { unfold tip_height. rewrite HtB. exact Hth. }
-  unfold on_new_peer. cbn [andb d_sync d_init negb].
-  unfold start_sync. cbn [d_sync with_states with_objs d_init d_states d_objs d_store aset filter snd fst map].
-  rewrite !last_of_single. cbn [po_last]. rewrite Eth. cbn [d_next d_hfm with_states with_objs d_init]. rewrite Hdis, (find_next_d_spec _ _ Hsorted).
+  unfold on_new_peer. cbn [andb d_sync negb].
+  unfold start_sync. cbn [d_sync with_states with_objs d_states d_objs d_store aset filter snd fst map].
+  rewrite !last_of_single. cbn [po_last]. rewrite Eth.
   replace (Z.of_nat (length C) <? Z.of_nat k) with false by (symmetry; apply Z.ltb_ge; lia). cbn [andb fst snd].
   set (o0 := {| po_conn := true; po_last := Z.of_nat (length C); po_start := Z.of_nat (length C); po_pb := None; po_ps := None |}).
-  (* the only candidate is picked, whatever the hint *)
   match goal with |- context [match (match ?bp with _ :: _ => ?a | [] => ?b end) with Some _ => _ | None => _ end] =>
     assert (Hpick: (match bp with _ :: _ => a | [] => b end) = Some p) end.
   { destruct (Z.ltb_spec (Z.of_nat k) (Z.of_nat (length C))) as [Hlt|Hge]; cbn [map fst].
     - destruct (memN hint [p]) eqn:Em; [|reflexivity]. apply memN_in in Em. destruct Em as [<-|[]]. reflexivity.
     - destruct (Z.eqb_spec (Z.of_nat (length C)) (Z.of_nat k)) as [_|Hne]; [|lia]. cbn [map fst].
       destruct (memN hint [p]) eqn:Em; [|reflexivity]. apply memN_in in Em. destruct Em as [<-|[]]. reflexivity. }
-  rewrite Hpick. clear Hpick. cbn [d_next d_store d_objs with_hfm with_states with_objs d_init]. rewrite ?Hdis, ?Eth, ?(find_next_d_spec _ _ Hsorted).
-  destruct (least_above (c_cps cfg) (Z.of_nat k)) as [[H cid]|] eqn:El.
+  rewrite Hpick. clear Hpick. cbn [d_next d_store d_objs with_hfm with_states with_objs].
+  destruct (least_above (eff_cps cfg) (Z.of_nat k)) as [[H cid]|] eqn:El.
   - destruct (next_on_chain k H cid El) as (Hn & EH & Hlt2 & Hnth & HnC).
     replace (Z.of_nat k <? H) with true by (symmetry; apply Z.ltb_lt; lia).
     match goal with |- context [send_gh ?st0 p ?loc ?stop] => rewrite (send_gh_sent st0 p o0 loc stop eq_refl eq_refl eq_refl) end.
-    unfold d_init. rewrite ?Hdis, ?Eth, ?(find_next_d_spec _ _ Hsorted), ?El. reflexivity.
+    reflexivity.
   - match goal with |- context [send_gh ?st0 p ?loc ?stop] => rewrite (send_gh_sent st0 p o0 loc stop eq_refl eq_refl eq_refl) end.
-    unfold d_init. rewrite ?Hdis, ?Eth, ?(find_next_d_spec _ _ Hsorted), ?El. reflexivity.
+    reflexivity.
 Qed.
 
 (* connecting the peer *)
-Lemma connect_ok k s res hints : (k <= length C)%nat -> Good gid C k s ->
-  exists y1 ev es st, y_cmd (y_init cfg gid s [(p, node0 res)] hints) (CConnect p) = (y1, [(ev, es, st)]) /\ sys_ok k y1 /\
+Lemma connect_ok k s hints : (k <= length C)%nat -> Good gid C k s ->
+  exists y1 ev es st, y_cmd (y_init cfg gid s [(p, node0)] hints) (CConnect p) = (y1, [(ev, es, st)]) /\ sys_ok k y1 /\
     ev = ENew p true (Z.of_nat (length C)) /\ entry_ok (EHeaders p [], es, st) /\ es <> [].
 Proof.
   intros Hk HG.
   destruct (good_locator k s Hk HG) as (lrest & Eloc & Etb).
-  assert (Ecmd: y_cmd (y_init cfg gid s [(p, node0 res)] hints) (CConnect p) =
-                eng_event (y_with (y_init cfg gid s [(p, node0 res)] hints) (d_init cfg s)
-                                  [(p, n_with (node0 res) C res true true false [])] [] hints)
+  assert (Ecmd: y_cmd (y_init cfg gid s [(p, node0)] hints) (CConnect p) =
+                eng_event (y_with (y_init cfg gid s [(p, node0)] hints) (d_init cfg s)
+                                  [(p, n_with node0 C res true true false [])] [] hints)
                           (ENew p true (Z.of_nat (length C)))).
   { unfold y_cmd, y_init. cbn [y_nodes aget]. rewrite N.eqb_refl. cbn [node0 n_used y_eng y_done y_hints].
     unfold upd_node. cbn [map fst snd]. rewrite N.eqb_refl. reflexivity. }
@@ -574,27 +615,31 @@ Proof.
   eexists _, _, _, _. split; [reflexivity|]. split; [|split; [reflexivity|split; [|discriminate]]].
   - unfold sys_ok. cbn [y_cfg y_gid y_eng y_done y_nodes y_with]. split; [reflexivity|]. split; [reflexivity|]. split; [|split; [reflexivity|]].
     + unfold eng_ok. cbn [d_hfm d_sync d_states d_objs d_next d_store]. repeat split; auto.
-      eexists. split; [reflexivity|]. cbn [po_conn po_pb]. split; [reflexivity|]. rewrite Eloc. reflexivity.
+      eexists. split; [reflexivity|]. cbn [po_conn po_pb po_ps]. split; [reflexivity|]. split; [rewrite Eloc; reflexivity|].
+      intros s0 Hs0. inversion Hs0; subst s0.
+      destruct (least_above (eff_cps cfg) (Z.of_nat k)) as [[H cid]|] eqn:El; [|left; reflexivity].
+      right. destruct (next_on_chain k H cid El) as (Hn & _ & _ & Hnth & _). exact (nth_error_In ci Hn Hnth).
     + eexists. split; [reflexivity|]. unfold node_ok, node_request, n_with.
-      cbn [n_open n_stalled n_chain n_reserve n_used n_out n_cap node0 negb andb app d_next]. repeat split; auto.
-      rewrite Eloc, (reply_head k lrest _ Hk). reflexivity.
+      cbn [n_open n_stalled n_chain n_reserve n_used n_out n_cap node0 negb andb app d_next].
+      split; [reflexivity|]. split; [reflexivity|]. split; [reflexivity|]. split; [reflexivity|]. split; [reflexivity|].
+      rewrite Eloc. destruct (reply_batch k lrest Hk) as (m & Em & Hkm & Hm1 & Hnx). exists m. rewrite Em. auto.
   - cbn [entry_ok d_store d_next]. split; [reflexivity|]. split; [|reflexivity]. rewrite Eloc, Etb. reflexivity.
 Qed.
 
 (* ---- catchup_linear ---- *)
-Theorem catchup_linear_sys k s res hints fuel : (k <= length C)%nat -> Good gid C k s -> (length C - k + 1 <= fuel)%nat ->
+Theorem catchup_linear_sys k s hints fuel : (k <= length C)%nat -> Good gid C k s -> (length C - k + 1 <= fuel)%nat ->
   exists y1 t1 y2 t2,
-    y_cmd (y_init cfg gid s [(p, node0 res)] hints) (CConnect p) = (y1, t1) /\
+    y_cmd (y_init cfg gid s [(p, node0)] hints) (CConnect p) = (y1, t1) /\
     y_cmd y1 (CRun fuel) = (y2, t2) /\
     quiescent y2 = true /\
-    Good gid C (length C) (d_store (y_eng y2)) /\
+    Good gid C (length C) (d_store (y_eng y2)) /\ idle_ok y2 /\
     (exists ev es st, t1 = [(ev, es, st)] /\ entry_ok (EHeaders p [], es, st) /\ es <> []) /\
     Forall entry_ok t2.
 Proof.
   intros Hk HG Hf.
-  destruct (connect_ok k s res hints Hk HG) as (y1 & ev & es & st & E1 & Hs1 & _ & He & Hne).
-  destruct (run_linear fuel k y1 Hk Hs1 Hf) as (y2 & t2 & E2 & Ht2 & Hq & HG2 & _ & _).
-  exists y1, [(ev, es, st)], y2, t2. split; [exact E1|]. split; [exact E2|]. split; [exact Hq|]. split; [exact HG2|].
+  destruct (connect_ok k s hints Hk HG) as (y1 & ev & es & st & E1 & Hs1 & _ & He & Hne).
+  destruct (run_linear fuel k y1 Hk Hs1 Hf) as (y2 & t2 & E2 & Ht2 & Hq & HG2 & Hi2).
+  exists y1, [(ev, es, st)], y2, t2. split; [exact E1|]. split; [exact E2|]. split; [exact Hq|]. split; [exact HG2|]. split; [exact Hi2|].
   split; [|exact Ht2]. exists ev, es, st. auto.
 Qed.
 
@@ -648,7 +693,7 @@ Qed.
 (* catchup_linear, closed                                                                       *)
 (* ------------------------------------------------------------------------------------------- *)
 Theorem catchup_linear cfg gid C p cap res k s hints fuel :
-  c_disable cfg = false -> good_chain (c_forb cfg) gid C -> cps_ok gid C (c_cps cfg) -> sorted (c_cps cfg) ->
+  good_chain (c_forb cfg) gid C -> cps_ok gid C (eff_cps cfg) -> sorted (eff_cps cfg) ->
   (1 <= cap)%nat -> (k <= length C)%nat -> Good gid C k s -> (length C - k + 1 <= fuel)%nat ->
   exists y1 t1 y2 t2,
     y_cmd (y_init cfg gid s [(p, node0 C cap res)] hints) (CConnect p) = (y1, t1) /\
@@ -658,15 +703,46 @@ Theorem catchup_linear cfg gid C p cap res k s hints fuel :
     (exists tip t, Inv2 (d_store (y_eng y2)) tip /\ ids (chain (d_store (y_eng y2)) tip) = rev (cids gid C) /\
                    tipB (d_store (y_eng y2)) = Some t /\ id t = last (cids gid C) gid) /\
     (* every step made exactly one request (none was filtered), to p, with the tip of that moment as locator head and
-       the next checkpoint's hash (zero after the last) as stop; the last reply was empty; nobody was disconnected *)
+       the next checkpoint's hash (zero after the last / when disabled) as stop; the last reply was empty; nobody was disconnected *)
     (exists ev es st, t1 = [(ev, es, st)] /\ entry_ok p (EHeaders p [], es, st) /\ es <> []) /\
-    Forall (entry_ok p) t2.
+    Forall (entry_ok p) t2 /\
+    idle_ok cfg gid C p cap res y2.
 Proof.
-  intros Hdis HC Hcps Hs Hcap Hk HG Hf.
-  destruct (catchup_linear_sys cfg gid C p cap Hdis HC Hcps Hs Hcap k s res hints fuel Hk HG Hf)
-    as (y1 & t1 & y2 & t2 & E1 & E2 & Hq & HG2 & Ht1 & Ht2).
-  exists y1, t1, y2, t2. split; [exact E1|]. split; [exact E2|]. split; [exact Hq|]. split; [|split; assumption].
+  intros HC Hcps Hs Hcap Hk HG Hf.
+  destruct (catchup_linear_sys cfg gid C p cap res HC Hcps Hs Hcap k s hints fuel Hk HG Hf)
+    as (y1 & t1 & y2 & t2 & E1 & E2 & Hq & HG2 & Hi2 & Ht1 & Ht2).
+  exists y1, t1, y2, t2. split; [exact E1|]. split; [exact E2|]. split; [exact Hq|]. split; [|split; [exact Ht1| split; assumption]].
   destruct (good_final gid C _ HG2) as (tip & t & HI & Hids & HtB & Htid & _). exists tip, t. auto.
+Qed.
+
+(* checkpoints enabled: the configured list must be sorted and consistent with C *)
+Corollary catchup_linear_enabled cfg gid C p cap res k s hints fuel :
+  c_disable cfg = false -> good_chain (c_forb cfg) gid C -> cps_ok gid C (c_cps cfg) -> sorted (c_cps cfg) ->
+  (1 <= cap)%nat -> (k <= length C)%nat -> Good gid C k s -> (length C - k + 1 <= fuel)%nat ->
+  exists y1 t1 y2 t2,
+    y_cmd (y_init cfg gid s [(p, node0 C cap res)] hints) (CConnect p) = (y1, t1) /\
+    y_cmd y1 (CRun fuel) = (y2, t2) /\ quiescent y2 = true /\
+    (exists tip t, Inv2 (d_store (y_eng y2)) tip /\ ids (chain (d_store (y_eng y2)) tip) = rev (cids gid C) /\
+                   tipB (d_store (y_eng y2)) = Some t /\ id t = last (cids gid C) gid) /\
+    (exists ev es st, t1 = [(ev, es, st)] /\ entry_ok p (EHeaders p [], es, st) /\ es <> []) /\
+    Forall (entry_ok p) t2 /\ idle_ok cfg gid C p cap res y2.
+Proof.
+  intros Hd HC Hcps Hs. apply catchup_linear; auto; unfold eff_cps; rewrite Hd; assumption.
+Qed.
+
+(* checkpoints disabled (p2p.disable_checkpoints = true): NO hypothesis on the configured list at all *)
+Corollary catchup_linear_disabled cfg gid C p cap res k s hints fuel :
+  c_disable cfg = true -> good_chain (c_forb cfg) gid C ->
+  (1 <= cap)%nat -> (k <= length C)%nat -> Good gid C k s -> (length C - k + 1 <= fuel)%nat ->
+  exists y1 t1 y2 t2,
+    y_cmd (y_init cfg gid s [(p, node0 C cap res)] hints) (CConnect p) = (y1, t1) /\
+    y_cmd y1 (CRun fuel) = (y2, t2) /\ quiescent y2 = true /\
+    (exists tip t, Inv2 (d_store (y_eng y2)) tip /\ ids (chain (d_store (y_eng y2)) tip) = rev (cids gid C) /\
+                   tipB (d_store (y_eng y2)) = Some t /\ id t = last (cids gid C) gid) /\
+    (exists ev es st, t1 = [(ev, es, st)] /\ entry_ok p (EHeaders p [], es, st) /\ es <> []) /\
+    Forall (entry_ok p) t2 /\ idle_ok cfg gid C p cap res y2.
+Proof.
+  intros Hd HC. apply catchup_linear; auto; unfold eff_cps; rewrite Hd; [intros c []| exact I].
 Qed.
 
 (* the hypotheses are satisfiable: chain 2 <- 3 <- 4 <- 5 <- 6 on genesis 1, checkpoints at 2 and 5, store = genesis + 2 *)
@@ -674,7 +750,7 @@ Definition exC : list src := map (fun i => ex_sub i (i - 1) 545259519) [2; 3; 4;
 Definition exCfg : dcfg := {| c_cps := [(2, 3%N); (5, 6%N)]; c_disable := false; c_forb := [99%N]; c_now := 0 |}.
 
 Example ex_catchup_hyps :
-  good_chain (c_forb exCfg) 1 exC /\ cps_ok 1 exC (c_cps exCfg) /\ sorted (c_cps exCfg) /\
+  good_chain (c_forb exCfg) 1 exC /\ cps_ok 1 exC (eff_cps exCfg) /\ sorted (eff_cps exCfg) /\
   Good 1 exC 1 (run_from (c_forb exCfg) (init 1 (ex_pl 486604799)) (firstn 1 exC)).
 Proof.
   assert (HC: good_chain (c_forb exCfg) 1 exC).
@@ -699,43 +775,37 @@ Example ex_catchup_run :
 Proof. vm_compute. split; reflexivity. Qed.
 
 (* ------------------------------------------------------------------------------------------- *)
-(* the statement is false for the code as it is in three situations (witnesses by computation)  *)
+(* what used to be refuted, and what still is                                                   *)
 (* ------------------------------------------------------------------------------------------- *)
 Definition final_tip (y : sys) : option N := option_map id (tipB (d_store (y_eng y))).
 Definition all_effs (ts : list trace) : list eff := concat (map (fun t => concat (map (fun x => snd (fst x)) t)) ts).
 
-(* (1) disable_checkpoints = true: headersFirstMode stays false; the answer to the service's own getheaders is
-       "unrequested" and the peer is disconnected; nothing is synced *)
-Theorem disable_checkpoints_refuted :
-  let cfg := {| c_cps := []; c_disable := true; c_forb := []; c_now := 0 |} in
-  let y0 := y_init cfg 1 (init 1 (ex_pl 486604799)) [(7%N, node0 exC 2000 [])] [] in
+(* History: two further situations used to be refuted here and are now theorems.
+   (1) disable_checkpoints = true: headersFirstMode stayed false, the answer to the service's own getheaders was "unrequested",
+       the peer was disconnected (C06_disable_checkpoints_refuted) - repaired by /repo e6f7150; now catchup_linear_disabled.
+   (2) a lone peer's inv after the initial sync: the follow-up getheaders repeated begin/stop of the answered one and was
+       filtered (C06_single_peer_announce_refuted) - repaired by /repo 1572875; now announce_inv in SyncAnnounceProofs.
+   The same scenarios on the model of the repaired code: *)
+Example ex_disabled_now_syncs :
+  let cfg := {| c_cps := [(1, 77%N)]; c_disable := true; c_forb := []; c_now := 0 |} in      (* an inconsistent list: ignored *)
+  let y0 := y_init cfg 1 (init 1 (ex_pl 486604799)) [(7%N, node0 exC 2 [])] [] in
   let '(y, ts) := y_run y0 [CConnect 7; CRun 20] in
-  good_chain [] 1 exC /\ final_tip y = Some 1%N /\ In (Disconnect 7) (all_effs ts) /\ quiescent y = true.
-Proof.
-  vm_compute. split; [|split; [reflexivity| split; [tauto| reflexivity]]].
-  constructor.
-  - discriminate.
-  - cbn. repeat split; reflexivity.
-  - repeat constructor; cbn; intuition discriminate.
-  - intros h Hh. repeat (destruct Hh as [<-|Hh]; [vm_compute; repeat split; try discriminate; reflexivity|]). destruct Hh.
-Qed.
+  final_tip y = Some 6%N /\ ~ In (Disconnect 7) (all_effs ts) /\ quiescent y = true.
+Proof. vm_compute. split; [reflexivity|]. split; [|reflexivity]. intros H. repeat (destruct H as [H|H]; [discriminate|]). exact H. Qed.
 
-(* (2) a lone peer announces a new block by inv after the initial sync: the follow-up getheaders repeats begin/stop of
-       the answered one and is filtered; the block never arrives (recent timestamps: the node is "current") *)
 Definition exNew : list src := map (fun i => {| s_id := i; s_prev := (i - 1)%N;
    s_pl := {| p_bits := 545259519; p_ver := 1; p_merkle := 7%N; p_ts := 4000000000; p_nonce := 0 |} |}) [2; 3; 4]%N.
-Theorem single_peer_announce_refuted :
+Example ex_announce_now_followed :
   let cfg := {| c_cps := [(2, 3%N)]; c_disable := false; c_forb := []; c_now := 1800000000 |} in
   let y0 := y_init cfg 1 (init 1 (ex_pl 486604799)) [(7%N, node0 (firstn 2 exNew) 2000 (skipn 2 exNew))] [] in
   let '(y, ts) := y_run y0 [CConnect 7; CRun 20; CAnnounce 7 1 true; CRun 20] in
-  final_tip y = Some 3%N /\ quiescent y = true /\
-  (* the node did announce header 4 and is still connected *)
-  (exists n, aget 7%N (y_nodes y) = Some n /\ map s_id (n_chain n) = [2; 3; 4]%N /\ n_open n = true) /\
-  nth 3 ts [] <> [] /\ concat (map (fun x => snd (fst x)) (nth 3 ts [])) = [].
-Proof. vm_compute. split; [reflexivity|]. split; [reflexivity|]. split; [eexists; repeat split; reflexivity|]. split; [discriminate| reflexivity]. Qed.
+  final_tip y = Some 4%N /\ quiescent y = true /\
+  concat (map (fun x => snd (fst x)) (nth 3 ts [])) = [GetHeaders 7 [3; 2; 1]%N 4%N; GetHeaders 7 [4; 3; 2; 1]%N 0%N].
+Proof. vm_compute. repeat split; reflexivity. Qed.
 
-(* (3) the sync peer has delivered all it has; a second peer with a longer chain connects: it is never asked, also not
-       when the stall timer fires *)
+(* the statement is still false for the code as it is in one situation (witness by computation) *)
+(* the sync peer has delivered all it has; a second peer with a longer chain connects: it is never asked, also not
+   when the stall timer fires *)
 Theorem lagging_sync_peer_refuted :
   let cfg := {| c_cps := [(1, 2%N)]; c_disable := false; c_forb := []; c_now := 1800000000 |} in
   let y0 := y_init cfg 1 (init 1 (ex_pl 486604799)) [(7%N, node0 (firstn 2 exC) 2000 []); (8%N, node0 exC 2000 [])] [] in
@@ -754,7 +824,7 @@ Theorem contained_then_converges cfg st p c o pre h post s1 rc1 fin1 gid C q cap
   aget p (d_states st) = Some c -> d_hfm st = true -> aget p (d_objs st) = Some o -> po_conn o = true ->
   hloop (c_forb cfg) (d_next st) (d_store st) false None pre = HDone s1 rc1 fin1 ->
   memN (s_id h) (c_forb cfg) = true ->
-  c_disable cfg = false -> good_chain (c_forb cfg) gid C -> cps_ok gid C (c_cps cfg) -> sorted (c_cps cfg) ->
+  good_chain (c_forb cfg) gid C -> cps_ok gid C (eff_cps cfg) -> sorted (eff_cps cfg) ->
   (1 <= cap)%nat -> (k <= length C)%nat -> Good gid C k s1 -> (length C - k + 1 <= fuel)%nat ->
   exists st', on_headers cfg st p (pre ++ h :: post) = (st', [Ban p; Disconnect p]) /\
   exists y1 t1 y2 t2,
@@ -763,9 +833,9 @@ Theorem contained_then_converges cfg st p c o pre h post s1 rc1 fin1 gid C q cap
     (exists tip t, Inv2 (d_store (y_eng y2)) tip /\ ids (chain (d_store (y_eng y2)) tip) = rev (cids gid C) /\
                    tipB (d_store (y_eng y2)) = Some t /\ id t = last (cids gid C) gid).
 Proof.
-  intros Hnf Hst Hh Ho Hc Hpre Hf Hdis HC Hcps Hs Hcap Hk HG Hfu.
+  intros Hnf Hst Hh Ho Hc Hpre Hf HC Hcps Hs Hcap Hk HG Hfu.
   destruct (rejected_peer_dropped_default' cfg st p c o pre h post s1 rc1 fin1 Hnf Hst Hh Ho Hc Hpre Hf) as (st' & E & Es & _).
   exists st'. split; [exact E|]. rewrite Es.
-  destruct (catchup_linear cfg gid C q cap res k s1 hints fuel Hdis HC Hcps Hs Hcap Hk HG Hfu) as (y1 & t1 & y2 & t2 & E1 & E2 & Hq & Hfin & _).
+  destruct (catchup_linear cfg gid C q cap res k s1 hints fuel HC Hcps Hs Hcap Hk HG Hfu) as (y1 & t1 & y2 & t2 & E1 & E2 & Hq & Hfin & _).
   exists y1, t1, y2, t2. auto.
 Qed.
